@@ -608,7 +608,7 @@ def gen_viewer_op(world, rng):
              ("update_values", 2), ("coords_change", 1), ("clear_collection", 1), ("many_groups", 2), ("add_link", 6),
              ("remove_link", 1), ("readd_after_emptied", 5), ("remove_all_data_layers", 4), ("remove_linked_dataset", 4),
              ("ungrouped_shared_state", 6), ("ungrouped_twin_on_one_dataset", 1), ("ungrouped_new_subset", 2),
-             ("delete_ungrouped", 6), ("remove_many_in_block", 7), ("switch_reference", 8 if world.kind == "image" else 0)]
+             ("delete_ungrouped", 6), ("remove_many_in_block", 7), ("switch_reference", 24 if world.kind == "image" else 0)]
     if world.pending_append is not None:
         d = world.pending_append
         world.pending_append = None
@@ -697,7 +697,7 @@ def gen_viewer_op(world, rng):
     if name == "remove_many_in_block":
         # two or more removals of the same kind inside ONE hub delay block: all their messages come from the same sender
         # with different payloads, and every one of them must arrive when the block closes
-        what = rng.choice(["data", "data", "data", "groups", "components"])
+        what = rng.choice(["data", "data", "groups", "groups", "components"])
         if what == "data" and len(in_dc) < 3:
             # bring the rest of the pool in first so that two can leave and one stays
             for d in out_dc:
@@ -711,9 +711,18 @@ def gen_viewer_op(world, rng):
             k = rng.randint(2, len(in_dc) - 1)
             gone = (shown + [d for d in in_dc if not is_in(d, shown)])[:k] if rng.random() < 0.7 else rng.sample(in_dc, k)
             world.ctx.count("delay_block_removing_datasets:%d" % min(len(gone), 3))
-            world.ctx.count("delay_block_removing_shown_datasets:%d" % min(len([d for d in gone if is_in(d, world.given)]), 3))
+            ref_ = getattr(v.state, "reference_data", None)
+            can_show = [d for d in gone if not is_in(d, world.given) and
+                        not (world.kind == "image" and (d.ndim < 2 and (ref_ is None or ref_.ndim < 2)))]
+            world.ctx.count("delay_block_removing_shown_datasets:%d" % min(len([d for d in gone if is_in(d, world.given) or is_in(d, can_show)]), 3))
 
             def call_rm_many():
+                # the datasets that are about to leave are shown first, so that the viewer has layers to drop
+                for d in can_show:
+                    try:
+                        v.add_data(d)
+                    except Exception:
+                        world.ctx.count("add_data_before_multi_removal_raised")
                 with dc.hub.delay_callbacks():
                     for d in gone:
                         dc.remove(d)
@@ -852,7 +861,10 @@ def gen_viewer_op(world, rng):
                 link = MultiLink([a.id["x"], a.id["y"]], [b.id["x"], b.id["y"]], forwards=link_fw2, backwards=link_bw2)
             else:
                 from glue.plugins.coordinate_helpers.link_helpers import ICRS_to_Galactic
-                link = ICRS_to_Galactic([a.id["x"], a.id["y"]], [b.id["x"], b.id["y"]])
+                # longitude / latitude pairs must be valid angles: x (0..~150) and k (0..9)
+                if not (_has(a, "k") and _has(b, "k")):
+                    return "noop", (lambda: None), None
+                link = ICRS_to_Galactic([a.id["x"], a.id["k"]], [b.id["x"], b.id["k"]])
             world.links.append((link, a, b, kind))
 
             def upd_link(ok, ret):
@@ -1882,8 +1894,8 @@ def floors(counters, tier):
         out.append("fewer than 8 deletions of an ungrouped subset that has an equal twin")
     if sum(v for k, v in counters.items() if k.startswith("remove_dataset_with_multi_input_link:")) < 5:
         out.append("fewer than 5 removals of a dataset that takes part in a multi-input link")
-    if sum(counters.get("delay_block_removing_shown_datasets:%d" % k, 0) for k in (2, 3)) < 6:
-        out.append("fewer than 6 delay blocks removing two or more datasets shown in the viewer")
+    if sum(counters.get("delay_block_removing_shown_datasets:%d" % k, 0) for k in (2, 3)) < 5:
+        out.append("fewer than 5 delay blocks removing two or more datasets shown in the viewer")
     if sum(v for k, v in counters.items() if k.startswith("delay_block_removing_groups:")) < 4:
         out.append("fewer than 4 delay blocks removing two or more subset groups")
     if counters.get("picker_op:rm_many_in_block", 0) < 30:
